@@ -421,6 +421,11 @@ static void do_live(char *args) {
   vs_quiet();
   g_scr = vs_screen(W, H, B);
   if (!g_scr) { printf("live noscreen\n"); return; }
+  /* every rfbGetScreen() shares the static default cursor; its cached rich-cursor pixels were made for the
+   * pixel format of the previous screen of this process (a server-side matter, outside C07): drop the cache */
+  if (g_scr->cursor && g_scr->cursor->richSource && g_scr->cursor->cleanupRichSource) {
+    free(g_scr->cursor->richSource); g_scr->cursor->richSource = NULL; g_scr->cursor->cleanupRichSource = FALSE;
+  }
   live_fill(seed, kind, 0, 0, W, H);
   { rfbClientPtr scl = vs_connect_raw(g_scr, &g_peer); if (!scl) { printf("live noclient\n"); return; } }
   rfbClient *c = rfbGetClient(8, 3, 4);
